@@ -2,6 +2,8 @@ import ZI.Components
 namespace Drv.Components
 open ZI.Registry ZI.Components
 def nums (s : String) : List Nat := (s.splitOn " ").filterMap String.toNat?
+/-- `@name`: the name is not passed to the call, the component carries it as `__component_name__` -/
+def nm (s : String) : String := if s.startsWith "@" then (s.drop 1).toString else s
 def comp (s : String) : Option C := match nums s with | [i, e, h] => some ⟨⟨i, e⟩, h == 1⟩ | _ => none
 def shwV (o : Option Val) : String := match o with | some v => toString v.ident | none => "N"
 def fresh (sros : List (Nat × List Nat)) : Comp :=
@@ -18,9 +20,9 @@ partial def loop (h : IO.FS.Stream) (s : Comp) (sros : List (Nat × List Nat)) :
   match f with
   | ["reset"] => IO.println "ok"; loop h (fresh []) []
   | ["sro", i, l] => let sros := sros ++ [(i.toNat!, nums l)]; IO.println "ok"; loop h (fresh sros) sros
-  | ["regU", c, p, name, info] => let r := registerUtility s (comp c).get! p.toNat! name info; IO.println (out r); loop h r.1 sros
+  | ["regU", c, p, name, info] => let r := registerUtility s (comp c).get! p.toNat! (nm name) info; IO.println (out r); loop h r.1 sros
   | ["unregU", c, p, name] => let r := unregisterUtility s (comp c) p.toNat! name; IO.println (out r); loop h r.1 sros
-  | ["regA", c, req, p, name] => let r := registerAdapter s (comp c).get! (nums req) p.toNat! name "i"; IO.println (out r); loop h r.1 sros
+  | ["regA", c, req, p, name] => let r := registerAdapter s (comp c).get! (nums req) p.toNat! (nm name) "i"; IO.println (out r); loop h r.1 sros
   | ["unregA", c, req, p, name] => let r := unregisterAdapter s (comp c) (nums req) p.toNat! name; IO.println (out r); loop h r.1 sros
   | ["regS", c, req, p] => let r := registerSubscriptionAdapter s (comp c).get! (nums req) p.toNat! "i"; IO.println (out r); loop h r.1 sros
   | ["unregS", c, req, p] => let r := unregisterSubscriptionAdapter s (comp c) (nums req) p.toNat!; IO.println (out r); loop h r.1 sros
